@@ -32,7 +32,7 @@ CONSTANTS
   EmitActs = {S(emit if emit is not None else ALLACTS)}
   EmitRes = "{res}"
   EmitWhen = "{when}"
-INVARIANTS TypeOK NamesUniqueInv OrderInv NoDanglingInv EidsFresh
+INVARIANTS TypeOK NamesUniqueInv OrderInv NoDanglingInv EidsFresh SearchEqualsBruteForce BreadthFirst BackRefsEqualBruteForce
 PROPERTIES {PROPS}
 VIEW View
 ACTION_CONSTRAINT Emit
@@ -87,6 +87,11 @@ for tier, k in (("q", 3), ("t", 4)):
     # C11: flush / close / crash / reopen
     A11 = ["Create", "Delete", "Link", "Attr", "Flush", "Close", "Crash", "Open", "OpenOw"]
     cfg("c11a_" + tier, N1, k, ["blocks", "arrays", "tags", "sections", "props"], ["refs"], [], A11, life=4, steps=k + 4, emit=["Open", "Close", "Crash"])
+    # C20: searches and back references as one QueryAll self-loop per reachable state (after arbitrary deletions)
+    cfg("c20a_" + tier, N2, k + 1, ["sections", "props"], [], ["link"], ["Create", "Delete", "One", "Type", "Query"], steps=k + 3, emit=["QueryAll"])
+    cfg("c20d_" + tier, N2, k + 2, ["sections"], [], [], ["Create", "Delete", "Query"], steps=k + 3, emit=["QueryAll"])
+    cfg("c20b_" + tier, N2, k + 2, ["blocks", "sources"], [], [], ["Create", "Delete", "Type", "Query"], steps=k + 4, emit=["QueryAll"])
+    cfg("c20c_" + tier, N1, k + 2, ["blocks", "sections", "sources", "arrays", "tags", "mtags"], ["esources"], ["metadata"], ["Create", "Link", "One", "Delete", "Query"], steps=k + 4, emit=["QueryAll"])
 # the whole vocabulary, for simulation
 cfg("all", N2, 9, ALLSLOTS, ALLLINKS, ALLONES,
     ["Create", "CreateBad", "Delete", "DeleteAbsent", "Link", "One", "Foreign", "Attr", "Type", "Def", "Dims", "Flush", "Close", "Open"], life=3, dims=2)
